@@ -173,6 +173,33 @@ impl Inner {
             Err(p) => Err(format!("prove panic: {p}")),
         }
     }
+    /// The honest assignment expanded over the identity partition.  Witness generation itself is randomised
+    /// (the builder randomises unused public-input-gate wires), so proofs that must share their transcript up to
+    /// some message are all made from ONE such assignment.
+    pub fn fixed_assignment(&self) -> Option<Assignment<F>> {
+        let prover = &self.data.prover_only;
+        let common = &self.data.common;
+        let pw = self.pw().ok()?;
+        let mut w: PartitionWitness<F> = guarded(|| generate_partial_witness(pw, prover, common)).ok()?.ok()?;
+        if !common.luts.is_empty() && plonky2::plonk::prover::set_lookup_wires(prover, common, &mut w).is_err() {
+            return None;
+        }
+        Some(Assignment::from_partition(&w))
+    }
+    /// proof for a complete assignment (deterministic up to grinding when the circuit is not zero-knowledge)
+    pub fn prove_assignment(&self, a: &Assignment<F>, k: Option<Knobs>) -> Result<PW, String> {
+        let identity: Vec<usize> = (0..a.values.len()).collect();
+        if let Some(k) = k {
+            verif_knobs::set(k);
+        }
+        let r = guarded(|| prove_with_partition_witness(&self.data.prover_only, &self.data.common, a.to_partition(&identity), &mut TimingTree::default()));
+        verif_knobs::clear();
+        match r {
+            Ok(Ok(p)) => Ok(p),
+            Ok(Err(e)) => Err(format!("prove err: {e:#}")),
+            Err(p) => Err(format!("prove panic: {p}")),
+        }
+    }
     /// proofs for assignments that VIOLATE the circuit (decided by the satisfaction oracle):
     /// the honest assignment over the identity partition with one corrupted cell, plain prover
     /// (lenient quotient truncation so that the release prover emits a proof).
